@@ -185,15 +185,15 @@ func Compare(w *mc.World, m *model.State, tracked []string) []Disc {
 			}
 			var lr enttypes.QueryLockedUndByAddressResponse
 			if qe := w.Query("/mainchain.enterprise.v1.Query/LockedUndByAddress", &enttypes.QueryLockedUndByAddressRequest{Owner: BechOf(w, n)}, &lr); qe != nil {
-			add(Disc{Kind: "listquery.failed", Detail: fmt.Sprintf("query %s fails on a reachable state: %v", "/mainchain.enterprise.v1.Query/LockedUndByAddress", qe)})
-		}
+				add(Disc{Kind: "listquery.failed", Detail: fmt.Sprintf("query %s fails on a reachable state: %v", "/mainchain.enterprise.v1.Query/LockedUndByAddress", qe)})
+			}
 			if lr.Amount.Amount.BigInt().Cmp(m.LockedOf(n)) != 0 {
 				add(disc("ent.locked", "locked eFUND of %s: implementation %s, model %s", n, lr.Amount.Amount, m.LockedOf(n)))
 			}
 			var sr enttypes.QuerySpentEFUNDByAddressResponse
 			if qe := w.Query("/mainchain.enterprise.v1.Query/SpentEFUNDByAddress", &enttypes.QuerySpentEFUNDByAddressRequest{Address: BechOf(w, n)}, &sr); qe != nil {
-			add(Disc{Kind: "listquery.failed", Detail: fmt.Sprintf("query %s fails on a reachable state: %v", "/mainchain.enterprise.v1.Query/SpentEFUNDByAddress", qe)})
-		}
+				add(Disc{Kind: "listquery.failed", Detail: fmt.Sprintf("query %s fails on a reachable state: %v", "/mainchain.enterprise.v1.Query/SpentEFUNDByAddress", qe)})
+			}
 			if sr.Amount.Amount.BigInt().Cmp(m.SpentOf(n)) != 0 {
 				add(disc("ent.spent", "spent eFUND of %s: implementation %s, model %s", n, sr.Amount.Amount, m.SpentOf(n)))
 			}
